@@ -10,6 +10,7 @@ type Custom struct {
 	ParserGo  string
 	HarnessGo string
 	Note      string
+	Extra     map[string]string // further files, relative path (with PKG) -> source
 }
 
 func (c *Custom) Render(src, pkg string) string { return strings.ReplaceAll(src, "PKG", pkg) }
@@ -283,6 +284,73 @@ func (p *parser) on_s(as []Token, x gotoken.Pos, y *strings.Builder, zs []*ZNode
 	return nil
 }
 `, "types imported from other packages"),
+		func() *Custom {
+			c := mk("T-samename", `
+import ext "vgen/PKG/ext/PKG"
+`+typedCommon+`
+type YNode struct{ At int }
+type ZNode struct{ At int }
+
+// a local type with the name of the imported one
+type Node struct{ Kind int }
+
+func (p *parser) on_x(b Token) ext.Node        { return ext.Node{At: b.Idx, Ok: true} }
+func (p *parser) on_y(c Token) *YNode          { return &YNode{c.Idx} }
+func (p *parser) on_z(a Token, b Token) *ZNode { return &ZNode{a.Idx} }
+func (p *parser) on_s(as []Token, x any, y *YNode, zs []*ZNode, end Token) any {
+	p.gotS = true
+	for _, a := range as {
+		p.gotAs = append(p.gotAs, a.Idx)
+	}
+	p.gotX, p.gotY = -1, -1
+	if v, ok := x.(ext.Node); ok && v.Ok {
+		p.gotX = v.At
+	}
+	if y != nil {
+		p.gotY = y.At
+	}
+	for _, z := range zs {
+		p.gotZs = append(p.gotZs, z.At)
+	}
+	p.gotEnd = end.Idx
+	return nil
+}
+`, "a type imported from a package with the same name as the parser package, next to a local type of that name")
+			c.Extra = map[string]string{"ext/PKG/node.go": "package PKG\n\ntype Node struct {\n\tAt int\n\tOk bool\n}\n"}
+			return c
+		}(),
+		func() *Custom {
+			c := mk("T-samename2", `
+import ext "vgen/PKG/ext/PKG"
+`+typedCommon+`
+type YNode struct{ At int }
+type ZNode struct{ At int }
+
+func (p *parser) on_x(b Token) ext.Node        { return ext.Node{At: b.Idx, Ok: true} }
+func (p *parser) on_y(c Token) *YNode          { return &YNode{c.Idx} }
+func (p *parser) on_z(a Token, b Token) *ZNode { return &ZNode{a.Idx} }
+func (p *parser) on_s(as []Token, x ext.Node, y *YNode, zs []*ZNode, end Token) any {
+	p.gotS = true
+	for _, a := range as {
+		p.gotAs = append(p.gotAs, a.Idx)
+	}
+	p.gotX, p.gotY = -1, -1
+	if x.Ok {
+		p.gotX = x.At
+	}
+	if y != nil {
+		p.gotY = y.At
+	}
+	for _, z := range zs {
+		p.gotZs = append(p.gotZs, z.At)
+	}
+	p.gotEnd = end.Idx
+	return nil
+}
+`, "the imported same-name type as an exact parameter type (the generated file must still compile)")
+			c.Extra = map[string]string{"ext/PKG/node.go": "package PKG\n\ntype Node struct {\n\tAt int\n\tOk bool\n}\n"}
+			return c
+		}(),
 		mk("T-alias", typedCommon+`
 type Tok = Token
 type XNode struct{ At int }
